@@ -563,6 +563,15 @@ def random_instances_a(rng, n, max_side):
 # ---------------------------------------------------------------------------------------------
 # Part B records
 # ---------------------------------------------------------------------------------------------
+def _tie_exact(fa):
+    """Does IEEE evaluation of the ratio, the way any implementation has to do it (smaller/larger directly, or
+    larger/smaller inverted), reproduce `ratio >= fa` when the real ratio EQUALS fa = n/d?  A fact about the threshold
+    constant alone: the quotients of (n*m, d*m) round like those of (n, d)."""
+    n, d = float(fa[0]), float(fa[1])
+    t = n / d
+    return bool(n == d or (n / d >= t and 1.0 / (d / n) >= t))
+
+
 def _iterate_call(rec, probe):
     import autoarray as aa
 
@@ -588,7 +597,7 @@ ITER_VIAS = ("sampler", "decorator", "decorator_to_array")
 def rec_iterate(rec):
     """Table function: rec['v'][p] = [value at sub size 1, value at schedule entry 1, ...]."""
     _check_lattice(rec, rec["sched"])
-    rec = dict(rec, hist=0)
+    rec = dict(rec, hist=0, tie_exact=_tie_exact(rec["fa"]))
     out = dict(rec, p="C09", api="iterate", result=[], evals=[], off=0, bad=0, exc="")
     try:
         probe = Probe(rec, _table_value(rec["v"], rec["sched"]))
@@ -606,7 +615,7 @@ def rec_iterate(rec):
 def rec_iterate_fn(rec):
     """Function of the lattice point; the trace spec computes the table itself.  Values scaled by den = max sub^2."""
     _check_lattice(rec, rec["sched"])
-    rec = dict(rec, hist=0)
+    rec = dict(rec, hist=0, tie_exact=_tie_exact(rec["fa"]))
     out = dict(rec, p="C09", api="iterate_fn", result=[], evals=[], off=0, bad=0, exc="")
     try:
         probe = Probe(rec, _lattice_value(rec["fn"]))
@@ -931,6 +940,10 @@ def run(ctx):
         "the first schedule entry may be compared with the plain sub-size-1 evaluation (the documented scheme, which the machine "
         "models) or have no previous level: the statement is silent, the trace spec accepts either reading; the comparison with "
         "the machine's final state applies when the call follows the documented reading",
+        "exact ties of the agreement ratio with a threshold whose float evaluation is not exact (9/10) may fall either side; "
+        "for 1/2, 3/4, 99/100 and 1 ties are decided exactly (checked from float arithmetic of the threshold alone)",
+        "one OverSamplingUniform / OverSamplingIterate object per sub size / schedule is shared by decoy and real grids and by "
+        "consecutive instances of a replay group; every use is judged on its own geometry",
         "pixel geometry (centres from shape, scales, origin) is the one of C02",
     ]
 
